@@ -177,8 +177,12 @@ def nt_create(case, labels):
 
 @st.composite
 def s_create(draw):
-    npay = draw(st.integers(1, 8))
+    # mostly 1-8 payables; one case in eight has 9-40 (the unspecified ones then sit sparsely among many fixed ones)
+    npay = draw(st.integers(1, 8)) if draw(st.integers(0, 7)) else draw(st.integers(9, 40))
     forms = draw(st.lists(st.sampled_from(["bare", "tuple0", "fixed", "bare", "fixed"]), min_size=npay, max_size=npay))
+    if npay > 8 and draw(st.booleans()):
+        sparse = set(draw(st.lists(st.integers(0, npay - 1), min_size=2, max_size=4)))
+        forms = [("bare" if (i + npay) % 2 else "tuple0") if i in sparse else "fixed" for i in range(npay)]
     amount = st.one_of(st.integers(1, 1000), st.integers(1, 2 * 10 ** 14), st.sampled_from([1, 2, 546, 10 ** 8, 2 * 10 ** 14]))
     payables = [{"form": f, "amount": draw(amount) if f == "fixed" else None} for f in forms]
     fixed = sum(p["amount"] or 0 for p in payables)
